@@ -81,6 +81,22 @@ def perturbed(ctx, t, bi, n):
         if ss:
             i, info = r.choice(ss)
             out.append(("self used at a type the instance does not have: " + lines[0][:60], tg.render(t, plant_s=(i, lines))))
+    # tuple arithmetic whose components cannot be subtracted / multiplied (the runtime does it component by component),
+    # directly, one level down, in a compound assignment and through a generic helper -- and the numeric control
+    for lines in (['print(("left", 1) - ("right", 2))'], ['print((1.0, (2, "two")) * (3.0, (4, "four")))'],
+                  ['zt1 := ("b", 2)', 'zt1 -= ("a", 1)', 'print(zt1)'],
+                  ['zts :: fn p, q -> do', '    (p, 1) - (q, 2)', 'end', 'print(zts("a", "b"))'],
+                  ['ztm :: fn p, q -> do', '    (p, 1) * (q, 2)', 'end', 'print(ztm(1, 2))', 'print((1, 2.0) - (3, 4.0))']):
+        if ss:
+            i, info = r.choice(ss)
+            out.append(("tuple arithmetic component-wise: " + lines[0][:50], tg.render(t, plant_s=(i, lines))))
+    # a function with a declared result whose body ends in a definition (no value), the result used
+    for lines in (['zvl :: fn -> int do', '    zl := [1]', 'end', 'print(zvl() + 1)'],
+                  ['zvl :: fn -> int do', '    zb :: Zb { a: 1, b: "x" }', 'end', 'print(zvl() + 1)'],
+                  ['zvl :: fn -> str do', '    zq := 1', 'end', 'print(zvl() + "s")']):
+        if ss:
+            i, info = r.choice(ss)
+            out.append(("declared result, body ends in a definition: " + lines[1].strip(), tg.render(t, plant_s=(i, lines))))
     # the value of an if / case expression one of whose branches ends without a value, used
     for lines in (['zv1 := 0', 'zv2 := if false do', '    1', 'else do', '    zv1 = 2', 'end', 'print(zv2 + 1)'],
                   ['zv3 := case ZEV do', '    P x -> zq :: x end', '    Q -> 1 end', 'end', 'print(zv3 + 1)'],
